@@ -162,8 +162,10 @@ def gen_mem_code(rng, isa):
 
 def gen_code(rng, isa, documented_only=True):
     r = rng.random()
-    if not documented_only and r < 0.1:
-        return rng.choice(["rax", "xy", "yz", "wx", "vq", "v4", "vdd", "mq", "mbx", "bh", "sd", "mbois", "vs", "x"])
+    if not documented_only and r < 0.1:  # undocumented but accepted by the code (substring / prefix semantics)
+        if isa == "x86":
+            return rng.choice(["rax", "r8", "xy", "yz", "xyz", "mq", "mbx", "", "mbois", "rr"])
+        return rng.choice(["wx", "bh", "sd", "hsd", "vq", "v4", "vdd", "mq", "mbx", "", "xb"])
     if not documented_only and r < 0.104:
         return rng.choice(["k", "t", "1", "im", "V"])
     if r < 0.35:
